@@ -153,7 +153,7 @@ def main():
             mutated = lines[:]
             mutated[li] = newline
             open(f'{REPO}/{path}', 'w').write('\n'.join(mutated))
-            rc, o = sh('cargo test --offline --workspace', cwd=REPO, env=env, timeout=600)
+            rc, o = sh('cargo test --offline --workspace', cwd=REPO, env=env, timeout=240)
             if rc != 0:
                 if 'error[' in o or 'error:' in o and 'test result' not in o:
                     stats['not_compiling'] += 1
@@ -172,12 +172,16 @@ def main():
             env2.pop('CARGO_TARGET_DIR')
             checks = FILES[path] if MODE == 'ops' else list(dict.fromkeys(FILES[path] + ['C02', 'C03', 'C14', 'C12', 'C13', 'C19']))
             for cid in checks:
-                rc, o = sh(f'{VERIF}/bin/check {cid} quick', env=env2, timeout=1500)
+                env2['VERIF_WATCHDOG_S'] = '240'
+                rc, o = sh(f'{VERIF}/bin/check {cid} quick', env=env2, timeout=400)
                 if rc == 1 and 'VIOLATION' in o:
                     caught = cid
                     break
                 if rc != 0:
                     incon.append(f'{cid}(exit {rc})')
+                    if 'watchdog' in o or rc == 124:
+                        incon.append('HANGS')
+                        break
             open(f'{REPO}/{path}', 'w').write(src)
             if caught:
                 stats['killed_by_checks'] += 1
